@@ -246,6 +246,10 @@ def gen_tables(maxrows):
     for n in range(1, min(maxrows, 3) + 1):
         for xs in itertools.product(range(9), repeat=n):
             yield {'t': 'two', 'ab': list(xs)}
+    for n in range(3, min(maxrows, 4) + 1):
+        for xs in itertools.product(range(5), repeat=n):
+            if len(set(xs)) < n and len(set(xs)) > 1:
+                yield {'t': 'obj', 'a': list(xs)}            # the SAME key object in several rows next to other objects that are cmp-equal to it
 
 
 def _stable_order(keys):
@@ -267,6 +271,10 @@ def check_table(case):
     if case['t'] == 'one':
         a = [_mk(KA[i], False) for i in case['a']]
         b = [(7 * i + 3) % 4 for i in range(len(a))]           # a second, numeric column with ties
+    elif case['t'] == 'obj':
+        objs = [float('nan'), float('nan'), 1.0, datetime.datetime(2000, 1, 1), datetime.date(2000, 1, 1)]      # two NaN objects; a datetime and the date at its midnight
+        a = [objs[i] for i in case['a']]
+        b = [0] * len(a)
     else:
         a = [_mk(KB3[i // 3], False) for i in case['ab']]
         b = [_mk(KC3[i % 3], False) for i in case['ab']]
